@@ -700,6 +700,10 @@ origin_type_checkers = {
     Union: check_union
 }
 _subclass_check_unions = hasattr(Union, '__union_set_params__')
+try:
+    from types import UnionType as _UnionType
+except ImportError:
+    _UnionType = None
 if Literal is not None:
     origin_type_checkers[Literal] = check_literal
 
@@ -786,6 +790,9 @@ def check_type(argname: str, value, expected_type, memo: Optional[_TypeCheckMemo
                 raise TypeError(
                     'type of {} must be {}; got {} instead'.
                     format(argname, qualified_name(expected_type), qualified_name(value)))
+    elif _UnionType is not None and isinstance(expected_type, _UnionType):
+        # PEP 604 `X | Y` (Python 3.10+)
+        check_union(argname, value, expected_type, memo)
     elif isinstance(expected_type, TypeVar):
         # Only happens on < 3.6
         check_typevar(argname, value, expected_type, memo)
